@@ -21,17 +21,24 @@ type Op struct {
 type Case struct {
 	Desc bool `json:"desc"`           // descending comparator
 	Full bool `json:"full,omitempty"` // observe the whole state after every step (else after the last one)
+	// Coarse: the comparator orders keys by k/3 only, so distinct keys may be equivalent under it;
+	// the tree is then a map from equivalence classes to values (the model is keyed by class)
+	Coarse bool `json:"coarse,omitempty"`
 	Ops  []Op `json:"ops"`
 	Keys int  `json:"keys"` // probe keys -1..Keys
 }
 
 func run(w *core.Worker, c Case) {
-	comp := func(a, b int) bool { return a < b }
+	cls := func(k int) int { return k }
+	if c.Coarse {
+		cls = func(k int) int { return (k + 300) / 3 }
+	}
+	comp := func(a, b int) bool { return cls(a) < cls(b) }
 	if c.Desc {
-		comp = func(a, b int) bool { return a > b }
+		comp = func(a, b int) bool { return cls(a) > cls(b) }
 	}
 	t := bstree.New[int, int](comp)
-	model := map[int]int{}
+	model := map[int]int{} // keyed by class (= key unless Coarse)
 	sawDeleteHit, sawOverwrite, sawTwoChild := false, false, false
 	miss := 0 // Delete calls that named an absent key
 
@@ -48,12 +55,12 @@ func run(w *core.Worker, c Case) {
 		}
 		for k := -1; k <= c.Keys; k++ {
 			it, err := t.Get(k)
-			mv, ok := model[k]
+			mv, ok := model[cls(k)]
 			if ok != (err == nil) {
 				w.Violation("bst.get-presence", fmt.Sprintf("after step %d: Get(%d) err=%v, model present=%v", step, k, err, ok))
 				return false
 			}
-			if ok && (it.Key != k || it.Val != mv) {
+			if ok && (cls(it.Key) != cls(k) || it.Val != mv) {
 				w.Violation("bst.get-value", fmt.Sprintf("after step %d: Get(%d)=%+v, model value %d", step, k, it, mv))
 				return false
 			}
@@ -63,7 +70,7 @@ func run(w *core.Worker, c Case) {
 		for k := range model {
 			want = append(want, k)
 		}
-		sort.Slice(want, func(i, j int) bool { return comp(want[i], want[j]) })
+		sort.Slice(want, func(i, j int) bool { return (want[i] < want[j]) != c.Desc })
 		var got []bstree.Item[int, int]
 		overrun := false
 		p := core.Catch(func() {
@@ -88,8 +95,8 @@ func run(w *core.Worker, c Case) {
 			return false
 		}
 		for i, k := range want {
-			if got[i].Key != k || got[i].Val != model[k] {
-				w.Violation("bst.traverse-order", fmt.Sprintf("after step %d: Traverse gave %v, want keys %v with values %v", step, got, want, model))
+			if cls(got[i].Key) != k || got[i].Val != model[k] {
+				w.Violation("bst.traverse-order", fmt.Sprintf("after step %d: Traverse gave %v, want keys (classes) %v with values %v", step, got, want, model))
 				return false
 			}
 		}
@@ -102,14 +109,14 @@ func run(w *core.Worker, c Case) {
 		case "U":
 			val := 100 + i
 			p = core.Catch(func() { t.Upsert(op.Key, val) })
-			if _, ok := model[op.Key]; ok {
+			if _, ok := model[cls(op.Key)]; ok {
 				sawOverwrite = true
 			}
-			model[op.Key] = val
+			model[cls(op.Key)] = val
 		case "D":
 			var err error
 			p = core.Catch(func() { err = t.Delete(op.Key) })
-			_, ok := model[op.Key]
+			_, ok := model[cls(op.Key)]
 			if p == nil && ok != (err == nil) {
 				w.Violation("bst.delete-result", fmt.Sprintf("step %d: Delete(%d) err=%v, model present=%v", i, op.Key, err, ok))
 				return
@@ -122,10 +129,10 @@ func run(w *core.Worker, c Case) {
 				// two-child deletion?
 				lo, hi := false, false
 				for k := range model {
-					if k < op.Key {
+					if k < cls(op.Key) {
 						lo = true
 					}
-					if k > op.Key {
+					if k > cls(op.Key) {
 						hi = true
 					}
 				}
@@ -133,12 +140,12 @@ func run(w *core.Worker, c Case) {
 					sawTwoChild = true
 				}
 			}
-			delete(model, op.Key)
+			delete(model, cls(op.Key))
 		case "G":
 			var it bstree.Item[int, int]
 			var err error
 			p = core.Catch(func() { it, err = t.Get(op.Key) })
-			mv, ok := model[op.Key]
+			mv, ok := model[cls(op.Key)]
 			if p == nil && (ok != (err == nil) || (ok && it.Val != mv)) {
 				w.Violation("bst.get-value", fmt.Sprintf("step %d: Get(%d)=%+v,%v model=%v,%v", i, op.Key, it, err, mv, ok))
 				return
@@ -151,7 +158,7 @@ func run(w *core.Worker, c Case) {
 		if c.Full || i == len(c.Ops)-1 {
 			// read-your-write first, before any other lookup touches the tree
 			it, err := t.Get(op.Key)
-			if mv, ok := model[op.Key]; ok != (err == nil) || (ok && (it.Key != op.Key || it.Val != mv)) {
+			if mv, ok := model[cls(op.Key)]; ok != (err == nil) || (ok && (cls(it.Key) != cls(op.Key) || it.Val != mv)) {
 				w.Violation("bst.get-value", fmt.Sprintf("step %d: Get(%d) right after %+v = %+v,%v model=%v,%v", i, op.Key, op, it, err, mv, ok))
 				return
 			}
@@ -175,7 +182,7 @@ func run(w *core.Worker, c Case) {
 func TestProp(t *testing.T) {
 	r := core.Start(t, "C04")
 	defer r.Finish()
-	r.Rule("cases = operation sequences on bstree.BsTree[int,int] (Upsert with a fresh value per step / Delete / Get) checked against a map model: every return value, and Size + Get of every probe key + the full Traverse sequence after the last step (systematic sweep: every shorter sequence is its own case) or after every step (random sequences); non-trivial = the sequence overwrote a present key or deleted a present key; bst-bulk: 129-5000 keys loaded in sorted/reversed/shuffled order, then three rounds of deleting a fifth of the keys and re-inserting, with Size, the complete Traverse sequence (twice) and 64 random Gets after each phase; distinct by hash of (comparator, ops)")
+	r.Rule("cases = operation sequences on bstree.BsTree[int,int] (Upsert with a fresh value per step / Delete / Get) checked against a map model: every return value, and Size + Get of every probe key + the full Traverse sequence after the last step (systematic sweep: every shorter sequence is its own case) or after every step (random sequences); a quarter of the cases use a comparator that orders keys by k/3 only (distinct keys equivalent under it: the tree is then a map from classes to values); non-trivial = the sequence overwrote a present key or deleted a present key; bst-bulk: 129-5000 keys loaded in sorted/reversed/shuffled order, then three rounds of deleting a fifth of the keys and re-inserting, with Size, the complete Traverse sequence (twice) and 64 random Gets after each phase; distinct by hash of (comparator, ops)")
 
 	L := r.Pick(6, 7)
 	var alpha []Op
@@ -188,7 +195,12 @@ func TestProp(t *testing.T) {
 			if desc {
 				l = L - 1 // the mirrored comparator gets one step less
 			}
-			n := seq.Enum(alpha, l, func(ops []Op) { emit(Case{Desc: desc, Ops: ops, Keys: 5}) })
+			n := seq.Enum(alpha, l, func(ops []Op) {
+				emit(Case{Desc: desc, Ops: ops, Keys: 5})
+				if len(ops) <= l-1 {
+					emit(Case{Desc: desc, Coarse: true, Ops: ops, Keys: 5})
+				}
+			})
 			r.Exhaustive(fmt.Sprintf("all Upsert/Delete sequences of length<=%d over keys 0..4, desc=%v", l, desc), n)
 		}
 	}, run)
@@ -226,7 +238,7 @@ func TestProp(t *testing.T) {
 					ops = append(ops, Op{"G", k})
 				}
 			}
-			emit(Case{Desc: rng.Bool(), Full: true, Ops: ops, Keys: keys})
+			emit(Case{Desc: rng.Bool(), Coarse: i%4 == 3, Full: true, Ops: ops, Keys: keys})
 		}
 	}, run)
 
